@@ -37,6 +37,11 @@ type GEdge struct {
 	To    int
 	Cond  ast.Expr // non-nil on the two edges out of a condition
 	Truth bool     // polarity of Cond on this edge
+	// For the edges out of a case expression of a tagged switch:
+	// SwitchTag is the tag, CaseVal the case expression; Truth tells
+	// whether tag == CaseVal on this edge.
+	SwitchTag ast.Expr
+	CaseVal   ast.Expr
 }
 
 func (c *Ctx) graph(f *Fn) *Graph {
@@ -99,11 +104,17 @@ func (c *Ctx) graph(f *Fn) *Graph {
 			// Only the condition of an if/for/tagless-switch is a boolean
 			// whose polarity can be used; a tagged switch adds the case
 			// expression only, and range/select/typeswitch add nothing.
-			if cond != nil && !g.isBoolCond(b, cond) {
-				cond = nil
+			var tag, caseVal ast.Expr
+			if cond != nil {
+				if sw := g.taggedSwitchOf(b); sw != nil {
+					tag, caseVal = sw.Tag, cond
+					cond = nil
+				} else if !g.isBoolCond(b, cond) {
+					cond = nil
+				}
 			}
-			g.link(l, GEdge{To: first[b.Succs[0]], Cond: cond, Truth: true})
-			g.link(l, GEdge{To: first[b.Succs[1]], Cond: cond, Truth: false})
+			g.link(l, GEdge{To: first[b.Succs[0]], Cond: cond, Truth: true, SwitchTag: tag, CaseVal: caseVal})
+			g.link(l, GEdge{To: first[b.Succs[1]], Cond: cond, Truth: false, SwitchTag: tag, CaseVal: caseVal})
 		}
 	}
 	// drop edges out of dead nodes (the unreachable blocks go/cfg creates
@@ -123,6 +134,21 @@ func (c *Ctx) graph(f *Fn) *Graph {
 	}
 	f.g = g
 	return g
+}
+
+// taggedSwitchOf returns the tagged switch statement whose case expression
+// ends block b, if any.
+func (g *Graph) taggedSwitchOf(b *cfg.Block) *ast.SwitchStmt {
+	for _, s := range b.Succs {
+		if s.Kind == cfg.KindSwitchCaseBody || s.Kind == cfg.KindSwitchNextCase {
+			if cc, ok := s.Stmt.(*ast.CaseClause); ok {
+				if sw := g.enclosingSwitch(cc); sw != nil && sw.Tag != nil {
+					return sw
+				}
+			}
+		}
+	}
+	return nil
 }
 
 func (g *Graph) isBoolCond(b *cfg.Block, cond ast.Expr) bool {
@@ -402,9 +428,22 @@ func (g *Graph) isSuccessReturn(id int) bool {
 	return true
 }
 
+var errorIface = types.Universe.Lookup("error").Type().Underlying().(*types.Interface)
+
+// isErrorType: the builtin error, or a named interface extending it
+// (cue/errors.Error).
 func isErrorType(t types.Type) bool {
 	n, ok := t.(*types.Named)
-	return ok && n.Obj().Pkg() == nil && n.Obj().Name() == "error"
+	if !ok {
+		return false
+	}
+	if n.Obj().Pkg() == nil && n.Obj().Name() == "error" {
+		return true
+	}
+	if _, isIface := n.Underlying().(*types.Interface); isIface {
+		return types.Implements(n, errorIface)
+	}
+	return false
 }
 
 // dump prints the graph (debugging aid, -v -dumpgraph).
